@@ -292,14 +292,17 @@ def run_impl(ctx, exe, cases):
     return results
 
 
-def run_model_lines(ctx, mexe, lines):
-    if not lines:
-        return []
-    r = ctx.run(mexe, "".join(l + "\n" for l in lines), timeout=600)
-    out = r.out.splitlines()
-    if r.rc != 0 or len(out) != len(lines):
-        raise vlib.BuildError("model driver failed: rc=%s, %d answers for %d lines: %s" % (
-            r.rc, len(out), len(lines), r.err[-400:]))
+def run_model_lines(ctx, mexe, lines, chunk=150):
+    """one answer line per input line; the driver is run on chunks so that no single call can starve"""
+    out = []
+    for k in range(0, len(lines), chunk):
+        part = lines[k:k + chunk]
+        r = ctx.run(mexe, "".join(l + "\n" for l in part), timeout=1200)
+        ans = r.out.splitlines()
+        if r.rc != 0 or len(ans) != len(part):
+            raise vlib.BuildError("model driver failed: rc=%s, %d answers for %d lines: %s" % (
+                r.rc, len(ans), len(part), r.err[-400:]))
+        out += ans
     return out
 
 
